@@ -658,6 +658,9 @@ def checkMultsRaw (line : Nat) : List MultEntry → Option IV
 def minQ {K : Type} [Div K] [Zero K] [LT K] [DecidableLT K] (ceil : K → Int) (vmin len : K) : Option Int :=
   if 0 < vmin then some (ceil (vmin / len)) else none
 
+/-- `numpy.ceil` through the floor: `ceil x = -floor(-x)` (specification: `ceilOfFloor_spec`). -/
+def ceilOfFloor {K : Type} [Neg K] (fl : K → Int) (x : K) : Int := -(fl (-x))
+
 /-- `boundaryshape not in ['cylinder', 'box']` → ValueError. -/
 def Shape.ofString? : String → Option Shape
   | "cylinder" => some .cylinder | "box" => some .box | _ => none
@@ -730,6 +733,28 @@ def monopoleCall (fl : K → Int) (ceil : K → Int) (pad : K) (sqrt : K → K) 
     | none => (cur', .error "assert")
     | some r => (cur', .ok r)
 
+end
+
+section
+variable {K : Type} [Add K] [Sub K] [Mul K] [Div K] [Neg K] [Zero K] [One K] [IntCast K]
+  [LT K] [LE K] [DecidableLT K] [DecidableLE K]
+
+/-- `Dislocation.periodicarray(**kwargs)` as a whole: argument handling (no shape), reference system, then
+    `build_disl_array` with `bwidth = boundarywidth` and the cutoff given or `0.5` (Å, in working units); the refusals
+    of `build_disl_array` are ValueErrors. -/
+def arrayCall (fl : K → Int) (rnd : K → Int) (ceil : K → Int) (pad : K) (u : V3 K → V3 K) (o : Orient) (rcell : Sys K)
+    (lens : V3 K) (ucellA : K) (nsym : Nat) (shifts : List (V3 K)) (cur : V3 K) (a : CallArgs K)
+    (burgers : V3 K) (linear : Bool) (cutoff : Option K) (atolSlip atolInt rtolInt : K) :
+    V3 K × Except String (ArrayOut K) :=
+  match callHead ceil false o.line rcell.box.vects lens ucellA shifts cur a with
+  | (cur', .error e) => (cur', .error e)
+  | (cur', .ok h) =>
+    match periodicArray fl rnd pad u o (baseSystem fl pad rcell h.sizes h.shift) burgers h.center linear h.width
+        (cutoff.getD half) atolSlip atolInt rtolInt nsym with
+    | .error .slip => (cur', .error "value slip")
+    | .error .nonint => (cur', .error "value nonint")
+    | .error (.mismatch _ _) => (cur', .error "value mismatch")
+    | .ok r => (cur', .ok r)
 end
 
 /-! ### disregistry (atomman/defect/disregistry.py) -/
